@@ -52,6 +52,8 @@ def run(ctx):
         enum('rel', 2, 8, 0); enum('rel', 2, 8, 1)
         enum('rel', 3, 8, 0, 8); enum('rel', 3, 8, 1, 2)
         enum('rel', 3, 9, 0, 24)
+        enum('rel', 2, 10, 0, 4)
+        enum('rel', 4, 8, 0, 16)
         enum('asan', 2, 8, 0); enum('asan', 3, 7, 0, 4); enum('asan', 3, 6, 1)
         for i in range(4):
             rnd('rel', 2 + i % 2, 1500000, 16, S + i, 1000 if i < 2 else 100)
